@@ -8,3 +8,4 @@ for p in $1; do for s in $2; do
   echo "$p seed=$s rc=$rc $(echo "$out" | tail -1)"
   [ $rc -ne 0 ] && echo "$out" | grep -E "VIOLATION|KNOWN|BROKEN" | head -3
 done; done
+exit 0
